@@ -62,7 +62,7 @@ macro_rules! __array_from_fn_inner {
 
         let arr $(: $crate::__unparenthesize_ty!($($type)*))? =
             $crate::utils::__parse_closure_1!{
-                ($crate::__array_map) (input, |i| i,) (array_from_fn),
+                ($crate::__array_map) (input, |i| {i},) (array_from_fn),
                 $($closure_unparsed)*
             };
 
